@@ -62,6 +62,12 @@ func (b BoolOrStruct[T]) IsNil() bool {
 	return !b.isBool && isZero(b.structValue)
 }
 
+// IsZero reports whether the value is unset. yaml.v3 consults it for omitempty; without it the
+// struct is always treated as empty (it has only unexported fields) and is never serialized.
+func (b BoolOrStruct[T]) IsZero() bool {
+	return b.IsNil()
+}
+
 // UnmarshalYAML implements yaml.Unmarshaler.
 func (b *BoolOrStruct[T]) UnmarshalYAML(node *yaml.Node) error {
 	// Handle null/nil explicitly
